@@ -163,3 +163,11 @@ Proof.
   - split; [apply simpson_norm_even | apply simpson_accepts_norm; exact H].
   - apply simpson2d_accepts_norm; exact H.
 Qed.
+
+(* the Simpson arms of Integrator::integrate / integrate2d (translated) forward their arguments unchanged *)
+Lemma dispatch_simpson : forall (f : R -> C) (g : R -> R -> C) (a b c d eps : R) divs depth,
+  integrate_Simpson Rops f a b divs = simpson Rops f a b divs /\
+  integrate2d_Simpson Rops g a b c d divs = simpson2d Rops g a b c d divs /\
+  integrate_AdaptiveSimpson Rops f a b eps depth = simpson_adaptive Rops f a b eps depth /\
+  integrate2d_AdaptiveSimpson Rops g a b c d eps depth = simpson_adaptive_2d Rops g a b c d eps depth.
+Proof. intros. repeat split; reflexivity. Qed.
